@@ -51,7 +51,7 @@ func Run(c *core.Ctx) {
 		masks(c, fn, name)
 	}
 	c.Expect("R1.table", 3)
-	c.Expect("R1.mask", 6)
+	c.Expect("R1.mask", 3) // at least one reduction per CRC16 copy; how often it is spelled depends on the layout of the callers
 	c.Expect("R2.step", 15)
 
 	if fn := c.Func(pkgCommon, "", "KeyToSlot"); fn != nil && crcFns[pkgCommon] != nil {
@@ -285,6 +285,11 @@ func step(c *core.Ctx, fn *core.Fn, name string) *types.Var {
 
 func stepIndex(c *core.Ctx, fn *core.Fn, name string, as *ast.AssignStmt, index ast.Expr, crcObj types.Object) ast.Expr {
 	info := fn.Pkg.TypesInfo
+	if o := objOf(info, ast.Unparen(index)); o != nil { // idx := ..., named before the lookup
+		if rhs, other := defsOf(info, fn.Decl.Body, o); len(rhs) == 1 && other == 0 && rhs[0] != nil {
+			index = rhs[0]
+		}
+	}
 	e := strip(info, index)
 	if be, ok := e.(*ast.BinaryExpr); ok && (be.Op == token.AND || be.Op == token.REM) {
 		m, okY := core.IntConst(info, be.Y)
@@ -469,6 +474,12 @@ func table(c *core.Ctx, pk *packages.Package, tab *types.Var, name string, ref [
 // masks: every use of the crc16 function in its package is reduced modulo 16384.
 func masks(c *core.Ctx, fn *core.Fn, name string) {
 	info := fn.Pkg.TypesInfo
+	sites := 0
+	defer func() {
+		if sites == 0 {
+			c.Undecidedf("R1.mask", name, fn.Decl.Pos(), "no use of %s found in its package", name)
+		}
+	}()
 	for _, f := range fn.Pkg.Syntax {
 		var stack []ast.Node
 		ast.Inspect(f, func(n ast.Node) bool {
@@ -494,13 +505,35 @@ func masks(c *core.Ctx, fn *core.Fn, name string) {
 				}
 			}
 			key := name + "/" + owner
+			sites++
 			be, ok := parent.(*ast.BinaryExpr)
+			var operand ast.Expr = call
+			if as, isAs := parent.(*ast.AssignStmt); isAs && len(as.Lhs) == 1 && len(as.Rhs) == 1 && objOf(info, as.Lhs[0]) != nil {
+				// h := crc16(x) ... h & mask: the value is carried by a single-assignment local
+				v := objOf(info, as.Lhs[0])
+				if rhs, other := defsOf(info, f, v); len(rhs) == 1 && other == 0 {
+					var uses []*ast.BinaryExpr
+					ast.Inspect(f, func(m ast.Node) bool {
+						if b2, isB := m.(*ast.BinaryExpr); isB && (b2.Op == token.AND || b2.Op == token.REM) && (objOf(info, strip(info, b2.X)) == v || objOf(info, strip(info, b2.Y)) == v) {
+							uses = append(uses, b2)
+						}
+						return true
+					})
+					if len(uses) == 1 {
+						be, ok = uses[0], true
+						operand = uses[0].X
+						if objOf(info, strip(info, uses[0].Y)) == v {
+							operand = uses[0].Y
+						}
+					}
+				}
+			}
 			if !ok || be.Op != token.AND && be.Op != token.REM {
 				c.Undecidedf("R1.mask", key, call.Pos(), "result of %s is not directly reduced to a slot number", name)
 				return true
 			}
 			other := be.Y
-			if ast.Unparen(be.Y) == ast.Expr(call) {
+			if ast.Unparen(be.Y) == ast.Unparen(operand) {
 				other = be.X
 			}
 			m, ok := core.IntConst(info, other)
